@@ -23,7 +23,48 @@ CLAIMED = {
             "DESIGN.md 5 C18"),
 }
 
-NOT_YET = {}
+NOTE = ("Trusts CPython's ast parser, the hcverif engines, the third-party boundary summaries of DESIGN.md 2.4 and the repository's "
+        "own mypy --strict gate for implicit AttributeError/TypeError. Decides the structural clauses named in the level text - not the "
+        "run-time behaviour itself; declined clauses are listed in DESIGN.md section 7.")
+
+
+def other(tech, text, ref):
+    return ("other", tech, text, NOTE, ref)
+
+
+CLAIMED.update({
+    "C01": other("typestate / writer census + predicate truth tables + provenance of hand-outs (ast, CFG, def-use)",
+                 "Every run decides, on both trees: the only writers of the HTTP/1.1 and HTTP/2 connection state and the constant each may store; "
+                 "that IDLE is stored only under both-h11-sides-DONE (else branch closes on every path) or ACTIVE-and-no-streams; that the ACTIVE gate is a "
+                 "test-and-set under the state lock with ConnectionNotAvailable otherwise; the truth tables of is_available(); that every connection the pool "
+                 "hands out is filtered by the request's own origin and availability or freshly created; that the response stream is bound to its "
+                 "connection/request/stream id; and that the HTTP/2 event table is keyed by the event's own id. These are necessary conditions of "
+                 "no cross-talk for every history; byte equality is h11/h2 behaviour and not decided.", "DESIGN.md 5 C01"),
+    "C04": other("abstract interpretation of the assignment pass over {len<=max, len<max} + whole-program mutator census + CFG path rules",
+                 "Inductive argument for len(_connections) <= max_connections under every schedule (append only under a strict len<max fact or after a "
+                 "remove; no other mutator anywhere; the pass is atomic by C08.R1), one socket per connection object (guarded by `inner is None` under the "
+                 "connection lock and followed by the store), and exactness of the establishment-failure flag.", "DESIGN.md 5 C04"),
+    "C09": other("guard/dominance analysis of the assignment pass, eviction-reason census, truth tables of has_expired and the keep-alive limit",
+                 "Decides reuse-before-create, clean-up dominating every hand-out, that each eviction site has one of the allowed reasons (with the idle "
+                 "count actually counting idle connections), that expiry is armed on IDLE / cleared on ACTIVE, and folds has_expired() and the keep-alive "
+                 "limit over finite tables. Clock behaviour is not decided.", "DESIGN.md 5 C09"),
+    "C14": other("handler exactness + interprocedural may-analysis 'request data sent before this raise' + loop census (CFG, call graph)",
+                 "Decides that the pool repeats a request only on ConnectionNotAvailable, that every raise of it happens before any request-emitting "
+                 "primitive can have run in the same call or under the GOAWAY last-stream-id guard, and that no loop other than the pool retry / "
+                 "per-chunk / per-frame loops contains a send.", "DESIGN.md 5 C14"),
+    "C15": other("exception-escape (effect) analysis: fixpoint over the resolved call graph with handler filtering, map_exceptions rewriting, cause tags",
+                 "Computes the set of exception classes that can leave each of 26 public entry points per tree and requires it to be within the "
+                 "documented classes (or allowed/infeasible with a written reason), with the cause matching the class; plus EOF disposition of every "
+                 "read and well-formedness of the backend exception maps. Found KF2-KF6, KF20, KF24 and the new KF26 on the pinned tree.", "DESIGN.md 5 C15"),
+    "C16": other("argument provenance (reaching definitions, kwargs idiom, inter-procedural lifting through helpers) of every timeout argument",
+                 "Every one of the 19+2+2 call sites per tree that resolves to a network or pool-wait operation must receive "
+                 "request.extensions.get('timeout', {}).get(K, None) with K matching the operation kind; backends must apply the parameter to the "
+                 "blocking call. The instant a timeout fires is not decided.", "DESIGN.md 5 C16"),
+    "C20": other("handler exactness, call-graph reachability inside the retried region, counter induction over CFG paths, constant folding of the back-off generator",
+                 "The retry loop repeats only on ConnectError/ConnectTimeout, contains only establishment operations, is bounded by an exactly-once "
+                 "decremented counter initialised from `retries` with re-raise iff counter <= 0, and sleeps next(delays) with delays folding to "
+                 "0, 0.5, 1, 2, 4.", "DESIGN.md 5 C20"),
+})
 
 ALL = [f"C{i:02d}" for i in range(1, 21)]
 
